@@ -42,10 +42,15 @@ def _mk_solver(kind, timeout_ms):
         s = z3.Tactic("qfnra-nlsat").solver()
     elif kind == "smt":
         s = z3.Tactic("smt").solver()
+    elif kind == "nlsat-vo5":  # nlsat, variable ordering strategy 5 (sqrt/quotient chains: 0.1 s where the default order needs > 30 s)
+        s = z3.Then("simplify", "propagate-values", z3.With("qfnra-nlsat", variable_ordering_strategy=5)).solver()
     else:
         s = z3.SolverFor(kind)
     s.set("timeout", int(timeout_ms))
     return s
+
+
+PRE_STRATEGIES = ()  # ((kind, ms), ...) tried before `strategies`; opt-in, set by a check module (C06)
 
 
 def check_sat(formulas, timeout_ms=20000, stats=None, strategies=("default", "nlsat")):
@@ -54,8 +59,8 @@ def check_sat(formulas, timeout_ms=20000, stats=None, strategies=("default", "nl
     verdict, model = "unknown", None
     shares = {"default": 0.7, "nlsat": 0.3}
     tot = sum(shares.get(k, 0.5) for k in strategies)
-    for kind in strategies:
-        per = max(int(timeout_ms * shares.get(kind, 0.5) / tot), 1000)
+    plan = list(PRE_STRATEGIES) + [(k, max(int(timeout_ms * shares.get(k, 0.5) / tot), 1000)) for k in strategies]
+    for kind, per in plan:
         try:
             s = _mk_solver(kind, per)
             for f in formulas:
